@@ -76,7 +76,9 @@ def process(ctx: Ctx, cases: list[dict]) -> None:
                 more.append({"op": "joinnorm", "from": c["from"], "rel": parts}); more_idx.append(i)
         elif k == "root":
             paths = [Path("/", *p) for p, _ in c["paths"]]
-            ctx.case(c, len(paths) >= 2, ("root",))
+            if c.get("spelled"):
+                paths = [Path("/" + "/".join(q)) for q in c["spelled"]]
+            ctx.case(c, len(paths) >= 2, ("root",) + (("root:detours",) if c.get("spelled") else ()))
             try:
                 r = highest_common_root_folder(paths)
             except Exception as e:  # noqa: BLE001
@@ -229,6 +231,16 @@ def run(ctx: Ctx) -> None:
         paths = [p for p in paths if p[0]]
         if paths:
             cases.append({"kind": "root", "paths": paths})
+            if rng.random() < 0.4:
+                # the same locations spelled with detours (`x/..`, `./`): the result is about the locations the paths denote
+                sp = []
+                for q, _ in paths:
+                    q = list(q)
+                    for _ in range(rng.randint(0, 2)):
+                        i = rng.randint(1, len(q)) if len(q) > 1 else 1
+                        q[i:i] = rng.choice([["detour", ".."], ["."], ["up", "down", "..", ".."]])
+                    sp.append(q)
+                cases.append({"kind": "root", "paths": paths, "spelled": sp})
         f, t = list(rng.choice(ds)), list(rng.choice(ds))
         cases.append({"kind": "rel", "from": f, "to": t + ([rng.choice(FILES)] if rng.random() < 0.5 else [])})
     for _ in range(ctx.n(400, 8000)):
